@@ -41,7 +41,11 @@ def gen(args) -> list:
         # a window of consecutive days around the start of calendar year y
         ys = calc._get_start_of_year_in_days(y)
         lo, hi = max(ys - 10, cal._min_days), min(ys + 10, cal._max_days)
-        for n in range(lo, hi + 1):
+        # ... plus a few days anywhere in that year (week numbers far from 1 and 52) and one more window of consecutive days mid-year
+        mid = rnd.randint(ys, min(ys + 340, cal._max_days))
+        days = list(range(lo, hi + 1)) + sorted(rnd.randint(ys, min(ys + 380, cal._max_days)) for _ in range(5)) + \
+            list(range(mid, min(mid + 9, cal._max_days) + 1))
+        for n in days:
             d = LocalDate._ctor(days_since_epoch=n, calendar=cal)
             ev = {"op": "wk", "key": f"{name}|{cal.id}|{y}", "cal": cal.id, "n": n, "y": d.year, "min_days": md, "first_dow": fd, "irregular": irr}
             try:
@@ -59,6 +63,36 @@ def gen(args) -> list:
             except Exception as e:  # noqa: BLE001
                 ev.update(exc=type(e).__name__, wy=0, w=0, dow=0, weeks=0, rt=False, ys_wy=0, ys_next=0)
             evs.append(ev)
+    # (week-year, week, weekday) -> date, including weeks that do not exist and dates outside the calendar
+    for _ in range(nwin):
+        name, md, fd, irr, rule = rnd.choice([r for r in rules if not r[3]])
+        cal = CalendarSystem.iso if rnd.random() < 0.4 else rnd.choice(cals)
+        calc = cal._year_month_day_calculator
+        cc = rnd.random()
+        wy = cal.min_year + rnd.randint(0, 1) if cc < 0.15 else cal.max_year - rnd.randint(0, 1) if cc < 0.3 else rnd.randint(cal.min_year, cal.max_year)
+        if cal.id == "Badi" and wy <= cal.min_year + 1:
+            continue   # year 0 of Badi cannot be asked for (known finding of the accessor side)
+        w = rnd.choice([0, 1, 2, 26, 51, 52, 53, 54, rnd.randint(1, 53), -1])
+        dow = rnd.randint(1, 7)
+        ev = {"op": "wk_make", "cal": cal.id, "wy": wy, "w": w, "dow": dow, "min_days": md, "first_dow": fd,
+              "min_day": cal._min_days, "max_day": cal._max_days, "min_year": cal.min_year, "max_year": cal.max_year}
+        try:
+            ev["ys_wy"] = calc._get_start_of_year_in_days(wy)
+            ev["ys_next"] = calc._get_start_of_year_in_days(wy + 1)
+        except Exception:  # noqa: BLE001
+            continue
+        route = rnd.randrange(3)
+        try:
+            if route == 2 and name == "iso" and cal.id == "ISO":
+                r = LocalDate.from_week_year_week_and_day(wy, w, IsoDayOfWeek(dow))
+            elif route == 1 and cal.id == "ISO":
+                r = rule.get_local_date(wy, w, IsoDayOfWeek(dow))       # the calendar defaults to ISO
+            else:
+                r = rule.get_local_date(wy, w, IsoDayOfWeek(dow), cal)
+            ev["res"], ev["res_cal"] = r._days_since_epoch, r.calendar.id
+        except Exception as e:  # noqa: BLE001
+            ev["exc"] = type(e).__name__
+        evs.append(ev)
     for _ in range(nnav):
         cal = rnd.choice(cals)
         cc = rnd.random()
